@@ -64,6 +64,11 @@ def check(run, project):
                        "every abstract state (look-ahead byte x depleted x last yield) that reaches it")
     from .carriers import check_carriers
     check_carriers(run, project, "E1", {"bytes_remaining", "command_code"})
+    # E4 (= C01-W0): how many bytes a value occupies is what the layout tables say - field lists, widths, list sizes of union
+    # members, selector maps. A table entry that is too small makes a truncated encoding decode cleanly (the cut is absorbed)
+    # and the complete one leave surplus bytes: the decode facets of all types equal the pinned snapshot
+    from . import c20 as _c20
+    _c20.t6(run, project, L, facets={"decode"}, rule="E4")
     run.cover(cfg_nodes=len(F.cfg.nodes), node_states=sum(len(s) for s in F.states.values()))
     mode = "abort_on_error"
     if mode not in [a.arg for a in fn.args.args]:
